@@ -457,3 +457,48 @@ func discardResults(fn *ssa.Function) string {
 	}
 	return strings.TrimSuffix(strings.Repeat("_, ", n), ", ") + " = "
 }
+
+
+// unfuel turns the fuelled recursive specification functions (sexp.go) back
+// into native define-fun-rec definitions and keeps everything else: used for
+// specification-level lemmas, where the solver must unfold the definitions as
+// deep as an induction step needs.
+func unfuel(smt string) string {
+	forms, _ := parseSexps(smt)
+	rec := map[string]bool{}
+	for _, f := range forms {
+		if f.isL && len(f.list) >= 2 && f.list[0].atom == "declare-fun" && strings.HasSuffix(f.list[1].atom, "!C") {
+			rec[strings.TrimSuffix(f.list[1].atom, "!C")] = true
+		}
+	}
+	retSort := map[string]string{}
+	var sb strings.Builder
+	for _, f := range forms {
+		if !f.isL || len(f.list) == 0 {
+			continue
+		}
+		switch f.list[0].atom {
+		case "declare-fun":
+			name := f.list[1].atom
+			base := strings.TrimSuffix(name, "!C")
+			if rec[base] {
+				if name == base {
+					retSort[base] = f.list[3].String()
+				}
+				continue
+			}
+		case "assert":
+			if len(f.list) == 2 {
+				if d := recDefinition(f.list[1], rec, retSort); d != "" {
+					if d != "-" {
+						sb.WriteString(d + "\n")
+					}
+					continue
+				}
+			}
+		}
+		sb.WriteString(f.String())
+		sb.WriteByte('\n')
+	}
+	return sb.String()
+}
